@@ -418,6 +418,62 @@ def main (args : List String) : IO UInt32 := do
           let ds := s!"{if r == .full then "full" else "quick"},{o},{pf}"
           IO.println s!"A {p.name} {fam} {name} d={ds} len={len} nblocks={blocksA.length} sameLen={blocksA.length == blocksB.length} nopanic={np} holes={",".intercalate (holes.map desc)} comp={"|".intercalate (holes.map comp)} targets={tgs} src={src.replace " " "~"}"
     return 0
+  | "e2eclear" :: rest => do
+    -- material for the from-any-state theorems about `clear_frame` (C07)
+    let f : Feat := { v2 := rest.contains "v2", alt := rest.contains "alt" }
+    for p in panels f do
+      match p.prog p.init .clear with
+      | none => continue
+      | some [Act.panic] => continue
+      | some _ => pure ()
+      let prim := (Spec.fullTargets p.name "upd").head?
+      let combos : List (Refresh × Bool × Bool) := [.full, .quick].flatMap fun r => [false, true].flatMap fun o => [false, true].map fun pf => (r, o, pf)
+      for bg in List.range p.colors do
+        for (r, o, pf) in combos do
+          let d : DState := { p.init with bg := bg, refresh := r, isOn := o, partialFlag := pf }
+          let acts := (p.prog d .clear).getD [.panic]
+          let blocks := blocksOf acts
+          let np := acts.all (fun a => !a.isPanic)
+          let planeOf (c : UInt8) : Option Nat := match p.ctrl with
+            | .ssd _ => if c = 0x24 then some 0 else if c = 0x26 then some 1 else none
+            | .uc _ => if c = 0x10 then some 0 else if c = 0x13 then some 1 else none
+          for pl in [0, 1] do
+            let idxs := (List.range blocks.length).filter fun i => match (blocks[i]? : Option Blk) with
+              | some (Blk.c c _) => planeOf c == some pl
+              | _ => false
+            match idxs with
+            | [i] =>
+              match (blocks[i]? : Option Blk) with
+              | some (Blk.c c ps) =>
+                let v := ps.headD 0
+                let uni := ps.all (· == v)
+                let comp : String := match p.ctrl with
+                  | .ssd s0 =>
+                    let a0 : Ssd.Addr := ⟨s0.xPix, s0.stride, s0.rows, 3, 1, 2, 3, 4, 1, 3, false⟩
+                    let a := (blocks.take i).foldl Ssd.feedA a0
+                    s!"{a.xs},{a.xe},{a.ys},{a.ye},{a.stride},{a.rows},{Ssd.readyA a ps.length},{s0.xPix}"
+                  | .uc u0 =>
+                    let f1 := (blocks.take i).foldl Uc.feedF ⟨false, false, u0.has14⟩
+                    let f2 := (blocks.take i).foldl Uc.feedF ⟨false, true, u0.has14⟩
+                    s!"{u0.p1.size},{u0.p2.size},{Uc.readyF f1},{Uc.readyF f2},{u0.has14}"
+                let isPrim := (prim.map (·.plane)) == some pl
+                -- the byte a uniformly painted frame leaves in the primary plane
+                let ub : UInt8 := if p.colors = 3 ∧ bg = 2 then
+                    (match aliases.find? (fun al => al.panel == p.name ∧ al.kind == "TriColor") with
+                     | some al => if al.bwr then 0x00 else 0xFF
+                     | none => 0x00)
+                  else Spec.uniformByte p.name bg
+                let want : UInt8 := match prim with
+                  | some t => (t.enc.apply [ub, ub]).headD 0
+                  | none => ub
+                let fam := match p.family with | .ssd => "ssd" | .uc => "uc" | .acep => "acep"
+                let later := ((blocks.drop (i + 1)).all fun (b : Blk) => match b with
+                  | Blk.c c2 _ => !(planeOf c2 == some pl) && !(c2 == 0x46 && pl == 1) && !(c2 == 0x47 && pl == 0)
+                  | _ => true)
+                IO.println s!"K {p.name} {fam} bg={bg} d={if r == .full then "full" else "quick"},{o},{pf} plane={pl} k={i} cmd={hexByte c} len={ps.length} val={v.toNat} uniform={uni} nopanic={np} later={later} comp={comp} primary={isPrim} want={want.toNat}"
+              | _ => pure ()
+            | _ => pure ()
+    return 0
   | "check" :: sf :: tf :: rest => do
     let rec opt (k : String) : List String → Option String
       | a :: b :: r => if a == k then some b else opt k (b :: r)
